@@ -207,8 +207,7 @@ def State.serializeFlat (s : State) : State × Out := (s, .triples s.visible)
 /-- nquads / trix / hext: `store.contexts()` then one block per context (hext also appends a
     truthy default context; a repeated block prints the same quads again) -/
 def State.serializeCtxs (s : State) : State × Out :=
-  let (s1, cs) := s.contextsCall
-  (s1, .blocks (blocksOf s1.quads cs))
+  (s.contextsCall.1, .blocks (blocksOf s.contextsCall.1.quads s.contextsCall.2))
 
 /-- the TriG serializer object: `self.store` is re-pointed at each non-empty context while
     pre-processing; `_contexts` collects what will be written.  Nothing is written to the dataset. -/
@@ -223,10 +222,13 @@ def trigPreprocess (qs : List Quad) (ser : TrigSer) : List GName → TrigSer
     else if g ∈ ser.contexts.map (·.1) then trigPreprocess qs { ser with store := some g } gs
     else trigPreprocess qs { store := some g, contexts := ser.contexts ++ [(g, triplesOf qs g)] } gs
 
+/-- `self.contexts = list(store.contexts())` plus the default context when it is truthy (non-empty) -/
+def trigContexts (s1 : State) (cs : List GName) : List GName :=
+  if (triplesOf s1.quads s1.dname).isEmpty then cs else cs ++ [s1.dname]
+
 def State.serializeTrig (s : State) : State × Out :=
-  let (s1, cs) := s.contextsCall
-  let cs' := if (triplesOf s1.quads s1.dname).isEmpty then cs else cs ++ [s1.dname]
-  (s1, .blocks (trigPreprocess s1.quads ⟨none, []⟩ cs').contexts)
+  (s.contextsCall.1,
+   .blocks (trigPreprocess s.contextsCall.1.quads ⟨none, []⟩ (trigContexts s.contextsCall.1 s.contextsCall.2)).contexts)
 
 /-- JSON-LD `Converter.convert` accumulator -/
 structure JAcc where
@@ -251,11 +253,16 @@ def jsonldLoop (own : Bool) (acc : JAcc) : List GName → JAcc
     else if g.isIri then jsonldLoop own { acc with named := acc.named ++ [g] } gs
     else jsonldLoop own { acc with scratch := unionInto acc.scratch (triplesOf acc.self.quads g) } gs
 
+def jsonldRun (s1 : State) (cs : List GName) : JAcc :=
+  jsonldLoop (s1.jsonldOwnDefault cs)
+    ⟨s1, if s1.jsonldOwnDefault cs then triplesOf s1.quads .dflt else [], []⟩ cs
+
+def jsonldOut (s1 : State) (acc : JAcc) : Out :=
+  .blocks ((s1.dname, acc.scratch) :: blocksOf acc.self.quads acc.named)
+
 def State.serializeJsonld (s : State) : State × Out :=
-  let (s1, cs) := s.contextsCall
-  let own := s1.jsonldOwnDefault cs
-  let acc := jsonldLoop own ⟨s1, if own then triplesOf s1.quads .dflt else [], []⟩ cs
-  (acc.self, .blocks ((s1.dname, acc.scratch) :: blocksOf acc.self.quads acc.named))
+  ((jsonldRun s.contextsCall.1 s.contextsCall.2).self,
+   jsonldOut s.contextsCall.1 (jsonldRun s.contextsCall.1 s.contextsCall.2))
 
 /-- the code BEFORE the repair: when the dataset's own default graph is used as `default_graph`,
     `default_graph += g` is a store write into the dataset being serialised. -/
@@ -268,12 +275,14 @@ def jsonldLoopBuggy (own : Bool) (acc : JAcc) : List GName → JAcc
       jsonldLoopBuggy own { acc with self := acc.self.addAll (tagWith .dflt (triplesOf acc.self.quads g)) } gs
     else jsonldLoopBuggy own { acc with scratch := unionInto acc.scratch (triplesOf acc.self.quads g) } gs
 
+def jsonldRunBuggy (s1 : State) (cs : List GName) : JAcc :=
+  jsonldLoopBuggy (s1.jsonldOwnDefault cs) ⟨s1, [], []⟩ cs
+
 def State.serializeJsonldBuggy (s : State) : State × Out :=
-  let (s1, cs) := s.contextsCall
-  let own := s1.jsonldOwnDefault cs
-  let acc := jsonldLoopBuggy own ⟨s1, [], []⟩ cs
-  (acc.self, .blocks ((s1.dname, if own then triplesOf acc.self.quads .dflt else acc.scratch)
-                        :: blocksOf acc.self.quads acc.named))
+  let s1 := s.contextsCall.1
+  let acc := jsonldRunBuggy s1 s.contextsCall.2
+  (acc.self, .blocks ((s1.dname, if s1.jsonldOwnDefault s.contextsCall.2 then triplesOf acc.self.quads .dflt
+                                 else acc.scratch) :: blocksOf acc.self.quads acc.named))
 
 /-! ### SPARQL -/
 
@@ -308,16 +317,14 @@ def State.query (s : State) (q : QShape) : State × Out :=
   if q.froms.isEmpty && q.fromNamed.isEmpty then
     -- `self._dataset = graph`: the query runs on the dataset itself
     if q.graphVar then
-      let (s1, cs) := s.contextsCall
-      (s1, .rows (q.body ⟨s1.visible, namedBlocks s1 cs⟩))
+      (s.contextsCall.1, .rows (q.body ⟨s.contextsCall.1.visible, namedBlocks s.contextsCall.1 s.contextsCall.2⟩))
     else (s, .rows (q.body ⟨s.visible, []⟩))
   else
     -- `self._dataset = Dataset(); self.graph = Graph()`: everything is copied into scratch objects
     let dg := loadDefault s [] q.froms
     let scr := loadNamed s emptyDataset q.fromNamed
     if q.graphVar then
-      let (scr1, cs) := scr.contextsCall
-      (s, .rows (q.body ⟨dg, namedBlocks scr1 cs⟩))
+      (s, .rows (q.body ⟨dg, namedBlocks scr.contextsCall.1 scr.contextsCall.2⟩))
     else (s, .rows (q.body ⟨dg, []⟩))
 
 /-! ### property paths (seen-set traversal over the active graph; a function of its triples) -/
@@ -394,7 +401,7 @@ def State.run (s : State) : ReadOp → State × Out
   | .serializeCtxs => s.serializeCtxs
   | .serializeTrig => s.serializeTrig
   | .serializeJsonld => s.serializeJsonld
-  | .graphs => let (s1, cs) := s.contextsCall; (s1, .names cs)
+  | .graphs => (s.contextsCall.1, .names s.contextsCall.2)
   | .iter => (s, .triples s.visible)
   | .len => (s, .nat s.visible.length)
   | .slice pat => (s, .triples (s.matching pat none))
